@@ -42,8 +42,9 @@ def ruleset_for(case, level):
     mn = gen_flow.rules_for(case, "minimal")
     have = {json.dumps(r.to_json(), sort_keys=True) for r in mn.rules}
     ex = gen_flow.rules_for(case, "extended")
-    extra = [r for r in ex.rules if json.dumps(r.to_json(), sort_keys=True) not in have and r.side == side and r.operation.startswith(op)]
-    return ts.RuleSet(mn.rules + extra)
+    # the extended order is kept: added rules may precede the rules of the minimal set
+    return ts.RuleSet([r for r in ex.rules if json.dumps(r.to_json(), sort_keys=True) in have
+                       or (r.side == side and r.operation.startswith(op))])
 
 
 def why_not_site(case, rs, side, file, line, op):
@@ -110,6 +111,8 @@ def judge(item):
     for (sf, sl, kf, kl) in dyn.pairs:
         if not depends(clo[""], snk_sites.get((kf, kl), []), f"src:{sf}:{sl}"):
             res["dynamic_outside_closure"].append([sf, sl, kf, kl])
+    later = later_call_sites(case["files"])
+    res["reported_at_later_call"] = [list(pr) for pr in res["reported"] if (pr[2], pr[3]) in later]
     dynset = set(dyn.pairs)
     for pr in res["reported"]:
         sf, sl, kf, kl = pr
@@ -169,6 +172,34 @@ def judge(item):
                                  {"program": case, "level": level, "flow": list(pr)}))
     c10.cleanup(tag)
     return res
+
+
+def later_call_sites(files):
+    """(file, line) of every call `name(...)` that is the second or later call of that plain name inside one function / method /
+    module body (lian matches such calls of an unresolved function by the statement's name, not through a state)."""
+    import ast
+    out = set()
+    for fn, text in files.items():
+        tree = ast.parse(text)
+        scopes = [tree] + [n for n in ast.walk(tree) if isinstance(n, (ast.FunctionDef, ast.AsyncFunctionDef))]
+        for sc in scopes:
+            calls = []
+            stack = list(ast.iter_child_nodes(sc))
+            while stack:
+                n = stack.pop()
+                if isinstance(n, (ast.FunctionDef, ast.AsyncFunctionDef, ast.ClassDef)) and sc is not n:
+                    if isinstance(n, ast.ClassDef):
+                        continue
+                    continue
+                if isinstance(n, ast.Call) and isinstance(n.func, ast.Name):
+                    calls.append((n.lineno, n.col_offset, n.func.id))
+                stack.extend(ast.iter_child_nodes(n))
+            seen = set()
+            for ln, col, name in sorted(calls):
+                if name in seen:
+                    out.add((fn, ln))
+                seen.add(name)
+    return out
 
 
 def gadget_brief(g):
@@ -265,6 +296,7 @@ def main():
         return v
 
     prog_of_tag = {}
+    later_of = {}
     pending_nodep = []
     for r in forkpool.run_jobs(judge, jobs, timeout=timeout, tag="c11"):
         v = consume(r)
@@ -273,6 +305,7 @@ def main():
         tag, case, level = r.item
         pk = case["pid"] if not rp else "replay"
         reported[(pk, level)] = {tuple(x) for x in v["reported"]}
+        later_of[(pk, level)] = v.get("reported_at_later_call", [])
         prog_of_tag[pk] = case
     # flows outside the closure: re-run with the compensation switches to name the mechanism
     if pending_nodep:
@@ -334,6 +367,8 @@ def main():
         if level == "minimal" and (pk, "extended") in reported:
             chk.count("minimal/extended run pairs compared", 1)
             chk.count("flows of the minimal run looked up in the extended run", len(flows))
+            chk.count("minimal-run flows at a second or later call of a sink name, looked up in the extended run (extra rules precede)",
+                      len(later_of.get((pk, level), ())))
             lost = sorted(flows - reported[(pk, "extended")])
             if lost:
                 followups.append((pk, lost))
@@ -390,6 +425,8 @@ def main():
             for kd in kinds:
                 chk.require(f"restricted rules of kind {side}:{kd}", per * 2)
         chk.require("gadgets: rule:away:operation", max(2, per // 2))
+        chk.require("minimal-run flows at a second or later call of a sink name, looked up in the extended run (extra rules precede)",
+                    2 * per)
         chk.require("rules restricted by line only", 2 * per)
         chk.require("decoy sites (same name, excluded by the restriction)", 5 * per)
         chk.require("sink rules with several targets", per)
